@@ -321,6 +321,10 @@ class extract_visitor(NodeVisitor):
         # type: (ast.Global) -> None
         self.flow.scope.globals.update(node.names)
 
+    def visit_Nonlocal(self, node):
+        # type: (ast.Nonlocal) -> None
+        self.flow.scope.nonlocals.update(node.names)
+
     def visit_Name(self, node):
         # type: (ast.Name) -> None
         if type(node.ctx) is Load:
